@@ -197,9 +197,14 @@ def run(chk):
                 it = o.inertia_tensor
                 return it, R, before, (o._vertices, o._normal)
             res = chk.explore(fk_it, run_t, assumptions=facts + pos, only=[prefix])
+            if any(p.decisions != list(prefix) for p in res):
+                # the code has more (or other) branches than the area section found: explore everything below this prefix
+                res = [p for p in chk.explore(fk_it, run_t, assumptions=facts + pos) if p.decisions[:len(prefix)] == list(prefix)]
             for p in res:
-                if p.decisions != list(prefix):
-                    chk.errors.append(f"inertia_tensor[{chart}]: path {prefix} took decisions {p.decisions}")
+                if p.kind != "return":
+                    chk.record(f"inertia_tensor:returns[{chart}:{path_tag(p)}]", fk_it, "refuted", "path", model={},
+                               detail=f"{type(p.exc).__name__}: {p.exc}", replay=replay_polygon("inertia_tensor"))
+                    continue
                 t = f"{chart}:{path_tag(p)}"
                 it, R, before, after = p.value
                 C = [cx * R[0, j] + cy * R[1, j] + G.dd * R[2, j] for j in range(3)]
@@ -235,7 +240,7 @@ def run(chk):
     # the tensor tasks enumerate the decision prefixes found by the area section: check they are the same set
     seen = {o.name.split("[")[-1].rstrip("]").split(":")[1] for o in chk.obls if o.name.startswith("signed_area:post[so3")}
     want = {"".join("T" if d else "F" for d in pre) for pre in prefixes["so3"]}
-    if seen != want:
+    if not seen <= {w + s for w in want for s in ("", "T", "F", "TT", "TF", "FT", "FF")} or not all(any(s.startswith(w) for s in seen) for w in want):
         chk.errors.append(f"inertia tensor tasks cover paths {sorted(want)} but signed_area has paths {sorted(seen)}")
 
     # ---------------------------------------------------------------- canaries
